@@ -59,6 +59,33 @@ def c16_huge_length():
     return None
 
 
-W = {"c13_missing_name": c13_missing_name, "c15_mixed_session": c15_mixed_session, "c16_huge_length": c16_huge_length}
+def c15_failing_ctor_canon_held():
+    fresh()
+    a = bc.DomainS("a", 5)
+    class F(bc.ComplexS):
+        FAIL = True
+        def __init__(self, *x, **k):
+            super().__init__(*x, **k)
+            if F.FAIL:
+                raise RuntimeError("boom")
+    held = []
+    try:
+        F([a, a], list(".."), name="f")
+    except RuntimeError as e:
+        held.append(e)
+    F.FAIL = False
+    res = None
+    try:
+        F([a, a], list(".."), name="f")
+    except Exception as e:
+        res = (f"a ComplexS subclass whose __init__ raised after super().__init__: while the exception is still referenced the "
+               f"same request is refused with {type(e).__name__} (the rotation keys registered by ComplexS.__init__ stay bound)")
+    held.clear()
+    clear_singletons(F)
+    fresh()
+    return res
+
+
+W = {"c15_failing_ctor_canon_held": c15_failing_ctor_canon_held, "c13_missing_name": c13_missing_name, "c15_mixed_session": c15_mixed_session, "c16_huge_length": c16_huge_length}
 req = json.load(sys.stdin)
 json.dump({n: W[n]() for n in req["names"]}, sys.stdout)
